@@ -370,8 +370,13 @@ Definition send_packet (s : send) : packet Z :=
   mkPacket (s_id s) (s_job s) (s_dev s) (mkFlags 0 0 0 (s_bits s)) (s_tags s)
            (gen (Z.to_nat (s_plen s)) (s_seed s)).
 
-(* arrival of fragment k of send s at the receiver, or one wake-up sweep *)
-Inductive item := IFrag (s k : Z) | ISweep.
+(* arrival of fragment k of send s at the receiver, or one wake-up sweep; IFragB: the fragment arrives with
+   the low flag bits x OR-ed in by a hop on its way (session() / channelWrite set FlagChannel and
+   FlagChannelEnd on whatever packet goes out next, a proxy sets FlagProxy); IMulti: the fragments arrive
+   inside ONE Multi container, which receive() unpacks and handles one after the other *)
+Inductive item := IFrag (s k : Z) | ISweep | IFragB (s k x : Z) | IMulti (l : list (Z * Z)).
+Definition or_bits {A} (x : Z) (p : packet A) : packet A :=
+  with_flags (mkFlags (f_len (p_flags p)) (f_pos (p_flags p)) (f_group (p_flags p)) (Z.lor (f_bits (p_flags p)) x)) p.
 
 (* observed residue: (group, (max, e, c, number of stored fragments)) *)
 Definition ocluster : Type := Z * (Z * Z * Z * Z).
@@ -387,18 +392,38 @@ Inductive case :=
 | CListen (F cap : Z) (sends : list send) (self : Z) (wakes : list litem)
           (outs : list oout) (errs : list Z) (stopped : bool) (final : list ocluster).
 
+Definition frag_at (frs : list (list (packet Z))) (s k : Z) : option (packet Z) :=
+  if (s <? 0) || (k <? 0) then None else
+  match nth_error frs (Z.to_nat s) with
+  | Some fr => nth_error fr (Z.to_nat k)
+  | None => None
+  end.
+Fixpoint multi_events (frs : list (list (packet Z))) (l : list (Z * Z)) : option (list (ev Z)) :=
+  match l with
+  | [] => Some []
+  | (s, k) :: r => match frag_at frs s k, multi_events frs r with
+                   | Some p, Some t => Some (EvPkt p :: t)
+                   | _, _ => None
+                   end
+  end.
 Fixpoint build_events (frs : list (list (packet Z))) (sched : list item) : option (list (ev Z)) :=
   match sched with
   | [] => Some []
   | ISweep :: r => match build_events frs r with Some l => Some (EvSweep :: l) | None => None end
   | IFrag s k :: r =>
-    if (s <? 0) || (k <? 0) then None else
-    match nth_error frs (Z.to_nat s) with
-    | Some fr => match nth_error fr (Z.to_nat k) with
-                 | Some p => match build_events frs r with Some l => Some (EvPkt p :: l) | None => None end
-                 | None => None
-                 end
-    | None => None
+    match frag_at frs s k, build_events frs r with
+    | Some p, Some l => Some (EvPkt p :: l)
+    | _, _ => None
+    end
+  | IFragB s k x :: r =>
+    match frag_at frs s k, build_events frs r with
+    | Some p, Some l => Some (EvPkt (or_bits x p) :: l)
+    | _, _ => None
+    end
+  | IMulti m :: r =>
+    match multi_events frs m, build_events frs r with
+    | Some t, Some l => Some (t ++ l)
+    | _, _ => None
     end
   end.
 
